@@ -58,6 +58,14 @@ func TestMain(m *testing.M) {
 		}
 		return checkSigners(c)
 	})
+	reg("concurrent", func(raw json.RawMessage) error {
+		var c concCase
+		if err := json.Unmarshal(raw, &c); err != nil {
+			return err
+		}
+		_, err := checkConcurrent(c, 20) // an interleaving is not reproducible on demand: the workload is repeated
+		return err
+	})
 	pbt.Main(m, "C03")
 }
 
@@ -134,6 +142,47 @@ func init() {
 	_ = lim
 	if len(tinyX) == 0 || len(tinyY) == 0 {
 		panic("no curve points with tiny coordinates found")
+	}
+}
+
+// specialYPoint draws a curve point chosen by its Y coordinate (x = cube root of y^2-7, p = 7 mod 9):
+// tiny y, p - tiny, next to the limb boundaries 2^(26i)/2^(52i), (p-1)/2 +- small - the square roots for
+// which decompression is most likely to get the parity wrong.
+func specialYPoint(t *rapid.T) ec.Point {
+	e := new(big.Int).Div(new(big.Int).Add(bigP, big.NewInt(2)), big.NewInt(9))
+	small := new(big.Int).SetUint64(rapid.Uint64Range(1, 1<<33).Draw(t, "ysmall"))
+	if rapid.Bool().Draw(t, "ytiny") {
+		small = big.NewInt(int64(rapid.IntRange(1, 2000).Draw(t, "ytiny_v")))
+	}
+	var y *big.Int
+	switch rapid.IntRange(0, 4).Draw(t, "ykind") {
+	case 0, 1:
+		y = small
+	case 2:
+		y = new(big.Int).Sub(bigP, small)
+	case 3:
+		y = pow2(uint(rapid.SampledFrom([]int{26, 52, 78, 104, 130, 156, 182, 208, 234}).Draw(t, "ylimb")))
+		if rapid.Bool().Draw(t, "ybelow") {
+			y.Sub(y, small)
+		} else {
+			y.Add(y, small)
+		}
+	default:
+		y = new(big.Int).Rsh(bigP, 1)
+		if rapid.Bool().Draw(t, "ybelow") {
+			y.Sub(y, small)
+		} else {
+			y.Add(y, small)
+		}
+	}
+	y = modP(y)
+	for {
+		a := modP(new(big.Int).Sub(new(big.Int).Mul(y, y), big.NewInt(7)))
+		x := new(big.Int).Exp(a, e, bigP)
+		if ec.OnCurve(x, y) {
+			return ec.Point{X: x, Y: new(big.Int).Set(y)}
+		}
+		y = modP(y.Add(y, one))
 	}
 }
 
@@ -289,7 +338,7 @@ func genEcdsaCase(t *rapid.T) verifyCase {
 		return verifyCase{Kind: kind, Key: hx(key), Sig: hx(derInts(r, s)), Msg: hx(msg)}
 	}
 	kinds := []string{"valid", "valid_high_s", "bitflip_key", "bitflip_sig", "bitflip_msg", "rs_special", "s_plus_kn", "r_plus_n", "int_padding",
-		"hybrid_wrong_parity", "bad_prefix", "key_x_plus_p", "key_y_plus_p", "key_no_sqrt", "key_off_curve", "key_wrong_y", "key_length", "forged_valid_key"}
+		"hybrid_wrong_parity", "bad_prefix", "key_x_plus_p", "key_y_plus_p", "key_no_sqrt", "key_off_curve", "key_wrong_y", "key_length", "forged_valid_key", "key_special_y", "key_special_y"}
 	kind := rapid.SampledFrom(kinds).Draw(t, "kind")
 	switch kind {
 	case "valid":
@@ -368,6 +417,9 @@ func genEcdsaCase(t *rapid.T) verifyCase {
 	switch kind {
 	case "forged_valid_key":
 		fkey = key
+	case "key_special_y": // a valid compressed (sometimes uncompressed) key whose Y is a special square root
+		pt := specialYPoint(t)
+		fkey = encodeKey(pt, rapid.SampledFrom([]int{0, 0, 0, 1, 2}).Draw(t, "fmt"))
 	case "key_x_plus_p":
 		pt := tinyX[rapid.IntRange(0, len(tinyX)-1).Draw(t, "tiny")]
 		f := rapid.IntRange(0, 2).Draw(t, "fmt")
@@ -412,7 +464,7 @@ func genEcdsaCase(t *rapid.T) verifyCase {
 }
 
 func TestEcdsaVerify(t *testing.T) {
-	pbt.Check(t, pbt.Cfg{Name: "ecdsa_verify", Quick: 40000, Thorough: 1000000}, func(r *pbt.Run) {
+	pbt.Check(t, pbt.Cfg{Name: "ecdsa_verify", Quick: 36000, Thorough: 1000000}, func(r *pbt.Run) {
 		c := genEcdsaCase(r.T)
 		r.Case(c)
 		r.Class(c.Kind)
@@ -636,7 +688,7 @@ func genTweakCase(t *rapid.T) tweakCase {
 	if rapid.IntRange(0, 9).Draw(t, "tw0") == 0 {
 		tw = b32(new(big.Int).SetInt64(int64(rapid.IntRange(0, 2).Draw(t, "small"))))
 	}
-	kinds := []string{"valid", "wrong_parity", "bitflip_q", "bitflip_p", "bitflip_t", "tweak_plus_n", "tweak_special", "p_x_plus_p", "p_unliftable", "p_special", "result_infinity"}
+	kinds := []string{"valid", "wrong_parity", "bitflip_q", "bitflip_p", "bitflip_t", "tweak_plus_n", "tweak_special", "p_x_plus_p", "p_unliftable", "p_special", "result_infinity", "p_special_y"}
 	kind := rapid.SampledFrom(kinds).Draw(t, "kind")
 	mk := func(kind string, q []byte, par bool, p, tw []byte) tweakCase {
 		return tweakCase{Kind: kind, Q: hx(q), P: hx(p), T: hx(tw), Parity: par}
@@ -672,6 +724,13 @@ func genTweakCase(t *rapid.T) tweakCase {
 		pt := tinyX[rapid.IntRange(0, len(tinyX)-1).Draw(t, "tiny")]
 		q2, par2, _ := ec.TweakAdd(b32(pt.X), tw)
 		return mk(kind, q2, par2, b32(new(big.Int).Add(pt.X, bigP)), tw)
+	case "p_special_y": // internal key whose even-Y lift is a special square root
+		pt := specialYPoint(t)
+		q2, par2, _ := ec.TweakAdd(b32(pt.X), tw)
+		if rapid.IntRange(0, 3).Draw(t, "wrongpar") == 0 {
+			par2 = !par2
+		}
+		return mk(kind, q2, par2, b32(pt.X), tw)
 	case "p_unliftable":
 		x := new(big.Int).SetBytes(p)
 		for {
@@ -864,7 +923,7 @@ func keyBytes(k *btc.PublicKey) []byte {
 }
 
 func TestSigners(t *testing.T) {
-	pbt.Check(t, pbt.Cfg{Name: "signers", Quick: 5000, Thorough: 120000}, func(r *pbt.Run) {
+	pbt.Check(t, pbt.Cfg{Name: "signers", Quick: 4400, Thorough: 120000}, func(r *pbt.Run) {
 		c := signCase{Sk: hx(genSecret(r.T, "sk")), Msg: hx(genMsg(r.T, "msg")), Aux: hx(rapid.SliceOfN(rapid.Byte(), 32, 32).Draw(r.T, "aux"))}
 		r.Case(c)
 		z := new(big.Int).SetBytes(unhex(c.Msg))
